@@ -885,6 +885,51 @@ def rule_case(ctx):
                     else:
                         ctx.ok("SEC.CASE", site, fi, atom, "`%s` gives the same answer for upper- and lower-case section "
                                "letters (%d probe title pairs)" % (unparse(atom), len(_probe_titles())))
+    # table lookups keyed by (a slice of) the title: `TABLE.get(title[:2])` / `TABLE[key]` with TABLE a constant dict of section
+    # letters must select the same entry for the upper- and the lower-case spelling of a title
+    for fi, names in targets:
+        if names is None:
+            names = set(fi.params())
+        defs = _single_defs(fi)
+        clsnode = fi.cls.node if fi.cls is not None else None
+        menv = module_env(p, fi.module.name)
+        for sub in walk_shallow(fi.node):
+            tab = keyx = None
+            if isinstance(sub, ast.Call) and isinstance(sub.func, ast.Attribute) and sub.func.attr == "get" and sub.args:
+                tab, keyx = sub.func.value, sub.args[0]
+            elif isinstance(sub, ast.Subscript) and isinstance(sub.ctx, ast.Load) and not isinstance(sub.slice, (ast.Slice, ast.Constant)):
+                tab, keyx = sub.value, sub.slice
+            if tab is None:
+                continue
+            var = next((v_ for v_ in sorted(names) if _mentions(keyx, v_, defs)), None)
+            if var is None:
+                continue
+            try:
+                table = _fold_title(tab, var, "~V", defs=defs, menv=menv, clsnode=clsnode)
+            except NotConst:
+                continue
+            except Exception:  # noqa - not a constant table
+                continue
+            if not (isinstance(table, dict) and table and all(isinstance(k, str) and k[:1] in "~" + LETTERS + LETTERS.lower() and len(k) <= 2
+                                                                for k in table)):
+                continue
+            diff = None
+            try:
+                for up, lo in _probe_titles():
+                    ku = _fold_title(keyx, var, up, defs=defs, menv=menv, clsnode=clsnode)
+                    kl = _fold_title(keyx, var, lo, defs=defs, menv=menv, clsnode=clsnode)
+                    if table.get(ku, None) != table.get(kl, None):
+                        diff = (up, lo, ku, kl)
+                        break
+            except NotConst:
+                continue
+            site = "%s#letter-lookup(%s)" % (fi.qual, unparse(keyx, 30))
+            if diff:
+                ctx.bad("SEC.CASE", site, fi, sub, "the lookup `%s` selects different entries for %r and %r (keys %r / %r): the "
+                        "documentation tabulates both cases of every section letter" % (unparse(sub), diff[0], diff[1], diff[2], diff[3]))
+            else:
+                ctx.ok("SEC.CASE", site, fi, sub, "the lookup `%s` selects the same entry for upper- and lower-case section letters"
+                       % unparse(sub))
     ctx.floor("SEC.CASE", 6)
 
 
@@ -951,9 +996,7 @@ def rule_steer(ctx):
         ctx.undecided("SEC.STEER", READ + "#steer", fr, fr.node, "no `x = <items>.<VERS|WRAP|DLM|NULL>.value` pick-up found: the "
                       "steering values are kept in another form")
         return
-    for st, mn, var in stores:
-        found.add(mn)
-        site = "%s#steer(%s)" % (READ, mn)
+    def enabled_for(st):
         tests = []
         for nid in cfg.nodes_for(st):
             for (tn, lab) in cd.transitive(nid):
@@ -990,6 +1033,12 @@ def rule_steer(ctx):
                 enabled.add(L)
             if any(votes) and not all(votes):
                 partial[L] = [sp for sp, v in zip(spellings, votes) if not v]
+        return enabled, partial
+
+    for st, mn, var in stores:
+        found.add(mn)
+        site = "%s#steer(%s)" % (READ, mn)
+        enabled, partial = enabled_for(st)
         want = {STEER_EXPECT[mn]}
         if enabled == want and partial.get(STEER_EXPECT[mn]):
             ctx.bad("SEC.STEER", site, fr, st, "%s is not picked up from every spelling of a ~%s title (not from %s): the section is still "
@@ -1003,6 +1052,24 @@ def rule_steer(ctx):
             ctx.bad("SEC.STEER", site, fr, st, "the parse-steering value %s is taken from sections with title letters %s%s: "
                     "only ~%s may steer it, an item called %s elsewhere must not change how data or other sections are "
                     "read" % (mn, sorted(enabled), " (never from ~%s)" % missing[0] if missing else "", STEER_EXPECT[mn], mn))
+    # a steering variable is not given a constant inside the loop over sections under another section's letter: the value picked
+    # up from ~W must survive a ~V section that follows it (and the other way round)
+    from sa.astutil import parents as parents_of
+    for st, mn, var in stores:
+        loops = [a for a in parents_of(st) if isinstance(a, (ast.For, ast.While))]
+        if not loops:
+            continue
+        for sub in walk_shallow(loops[-1]):
+            if isinstance(sub, ast.Assign) and sub is not st and len(sub.targets) == 1 and isinstance(sub.targets[0], ast.Name) \
+                    and sub.targets[0].id == var and isinstance(sub.value, ast.Constant):
+                enabled, _partial = enabled_for(sub)
+                site = "%s#reset(%s)" % (READ, mn)
+                if enabled - {STEER_EXPECT[mn]}:
+                    ctx.bad("SEC.STEER", site, fr, sub, "the steering value %s is set back to %s while a section with title letter %s is "
+                            "processed: a ~%s section met earlier loses its %s (the order of the header sections changes the result)"
+                            % (mn, unparse(sub.value), sorted(enabled - {STEER_EXPECT[mn]}), STEER_EXPECT[mn], mn))
+                else:
+                    ctx.ok("SEC.STEER", site, fr, sub, "constant store to the %s variable only under its own section letter" % mn)
     for mn in STEER_EXPECT:
         if mn not in found:
             ctx.bad("SEC.STEER", "%s#steer(%s)" % (READ, mn), fr, fr.node, "%s is never picked up from the header" % mn)
